@@ -7,7 +7,7 @@ import z3
 
 from .contracts import REGISTRY
 from .core import State, fresh_name
-from .expr import KIND_OF_TYPE, OK, RAISE, ExprMixin, Rec
+from .expr import KIND_OF_TYPE, OK, RAISE, ExprMixin, Rec, _mentions
 from .universe import LISTLIKE, SINGLETONS
 from .vals import BM, Builtin, Cls, Fn, It, Mod, Mt, Star, SuperProxy, T, Tup, Unsupported
 
@@ -59,6 +59,11 @@ class CallMixin(ExprMixin):
 
     def call(self, f, args, kwargs, st, node=None):
         args = self.expand_stars(args)
+        cc = self.cur_contract
+        if (node is not None and cc is not None and isinstance(getattr(node, "func", None), ast.Name)
+                and node.func.id in getattr(cc, "fn_vars", {}) and st.mode == "code" and node.func.id in st.env):
+            # a call through a variable that holds one of a family of functions sharing one contract
+            return self.call_contract(cc.fn_vars[node.func.id], None, args, kwargs, st)
         if isinstance(f, Builtin):
             if f.name.startswith("prim:"):
                 return self.ok(self.prim(f.name[5:], args, st), st)
@@ -675,6 +680,15 @@ class CallMixin(ExprMixin):
             return self.consume(args[0], st, "nodelist")
         if cname in ("list", "tuple", "str", "bool", "slice"):
             return getattr(self, "bi_" + cname)(args, kwargs, st)
+        if cname == "frozenset" and len(args) == 1 and not kwargs:
+            # frozenset([c1, c2, ...]) of an explicit list: used for membership tests only -- kept as the tuple of its items
+            a0 = args[0]
+            if isinstance(a0, Tup):
+                return self.ok(a0, st)
+            if isinstance(a0, T) and a0.kind in ("list", "tuple"):
+                parts = self.concat_parts(a0.t)
+                if all(kind == "unit" for kind, _ in parts):
+                    return self.ok(Tup([T("V", t) for _, t in parts]), st)
         if cname in ("int", "float", "dict", "deque", "set", "frozenset"):
             raise Unsupported(f"constructor {cname}()")
         ci = src.classes.get(cname)
@@ -705,6 +719,44 @@ class CallMixin(ExprMixin):
 
                 vals.append(z3.Const(fresh_name(f"{rec.cls}.{f}"), self.V))
         return U.con("C_" + rec.cls, *vals)
+
+    def propagate_frame(self, st, mut, spec_env, facts):
+        """a callee clause `obj.f == obj0.f` (field unchanged) lets the caller's record keep the very term it had for f,
+        instead of the accessor on the unknown new object: facts about that field then need no congruence step"""
+        if not mut:
+            return st
+        conj = []
+        stack = list(facts)
+        while stack:
+            f = stack.pop()
+            if z3.is_and(f):
+                stack.extend(f.children())
+            elif z3.is_eq(f):
+                conj.append(f)
+        s2 = None
+        for name, cls in mut.items():
+            m = spec_env.get(name)
+            if not (isinstance(m, T) and m.kind == "V"):
+                continue
+            for var, val in list(st.env.items()):
+                if not (isinstance(val, Rec) and val.cls == cls):
+                    continue
+                for fld, fv in list(val.fields.items()):
+                    if not (isinstance(fv, T) and fv.kind == "V" and z3.is_app(fv.t) and fv.t.decl().kind() == z3.Z3_OP_DT_ACCESSOR
+                            and fv.t.arg(0).eq(m.t)):
+                        continue
+                    for e in conj:
+                        a, b = e.arg(0), e.arg(1)
+                        other = b if a.eq(fv.t) else a if b.eq(fv.t) else None
+                        if other is not None and not _mentions(other, m.t):
+                            if s2 is None:
+                                s2 = st.fork()
+                            nr = Rec(val.cls)
+                            nr.fields = dict(s2.env[var].fields)
+                            nr.fields[fld] = T("V", other)
+                            s2.env[var] = nr
+                            break
+        return s2 if s2 is not None else st
 
     def rec_of(self, cls, t):
         """record of the fields of object t (an instance of cls), for in-place updates"""
@@ -1048,6 +1100,7 @@ class CallMixin(ExprMixin):
                     result = T("V", z3.Const(fresh_name("res"), self.V))
                 rs.env["result"] = result
                 facts = [self.truthy(self.ev1(c.parsed(cl), rs)) for cl in rest]
+                ns = self.propagate_frame(ns, mut, spec_env, facts)
                 out.extend(self.ok(result, self.assume(ns, facts)))
             if st.mode == "code":
                 def raised(state, e):
